@@ -10,10 +10,10 @@ open PrologVerif PrologVerif.VM PrologVerif.DecompileCompile PrologVerif.Activat
   PrologVerif.Promise PrologVerif.DFSG PrologVerif.ForceDFSGConv
 
 section
-variable {fl : Bool} {tmpl : Term} {max : Nat} {prog : List Term} {F : Nat}
+variable {fl : Bool} {mo : Option Nat} {tmpl : Term} {max : Nat} {prog : List Term} {F : Nat}
 
 /-- below a cut parent the levels are at most its level -/
-theorem lev_le_of_drop {lv : Lv} {d : Nat} (h : LvOK lv d) {cp l : Nat} (hcp : lv.lev cp = some l)
+theorem lev_le_of_drop {lv : Lv} {d : Nat} (h : LvOK mo lv d) {cp l : Nat} (hcp : lv.lev cp = some l)
     {e : Nat × Option Nat} (he : e ∈ lv.dropWhile (fun e => e.1 ≠ cp)) {l' : Nat} (hl' : e.2 = some l') : l' ≤ l := by
   have hmcp := Lv.mem_of_lev hcp
   have hmono := h.mono
@@ -50,20 +50,20 @@ theorem afterCut_answers (l : Nat) (r : SLD.Res) : (SLD.afterCut l r).answers = 
 
 /-- **the cut**: the search below the promise of a cut is the search of the continuation of the
     cut on the path below the cut parent; the signal is then marked with the cut (`afterCut`) -/
-theorem cut_core {k : Nat} (ihPall : ∀ j, j ≤ k → TPk fl tmpl max prog F j) (hprog : ∀ c ∈ prog, clauseS fl c = true)
+theorem cut_core {k : Nat} (ihPall : ∀ j, j ≤ k → TPk fl mo tmpl max prog F j) (hprog : ∀ c ∈ prog, clauseS fl c = true)
     {pc : List Op} {vars : List Nat} {kk : Cont} {cp l : Nat} {env : Env} {R : List SLD.Frame} {q : Term}
     {nv n d : Nat} {r' : SLD.Res} {N : Nat} {σ : Subst} {π : Nat → Nat} {D : Nat → Prop} {G' : List (Term × Nat)}
     {lv : Lv} {m : MS} {sig : SigG Err} {m' : MS} {ans0 : List Term}
     (hd : dfsP (VM.sem F) 0 (k + 1) (cutPromise pc vars kk env cp) (lv.map Prod.fst) m = some (sig, m'))
     (hgood : GoodP fl F (k + 1) (cutPromise pc vars kk env cp) (lv.map Prod.fst) m)
     (hans : m.user.answers = ans0) (hlcp : lv.lev cp = some l)
-    (hN : N ≤ m.user.nextVar) (hW : SimW tmpl N env σ π D nv) (hcg : ContGoals fl tmpl max (.exec pc vars cp kk) G')
-    (hgr : GRel lv σ π D G' R) (hco : CutsOK lv G') (hq : q = img σ π tmpl)
+    (hN : N ≤ m.user.nextVar) (hW : SimW tmpl N env σ π D nv) (hcg : ContGoals fl mo tmpl max (.exec pc vars cp kk) G')
+    (hgr : GRel mo lv σ π D G' R) (hco : CutsOK lv G') (hq : q = img σ π tmpl)
     (hbnd : ∀ it ∈ G', isCut it → ∀ l', lv.lev it.2 = some l' → l' ≤ l)
     (hs : SLD.solve false (progS prog) n d nv R q (max - ans0.length) = some r')
-    (hok : LvOK lv d) (hst : StOK prog m) (hlt : ans0.length < max) :
+    (hok : LvOK mo lv d) (hst : StOK prog m) (hlt : ans0.length < max) :
     sig = .illScoped ∨ ∃ sigB, sig = afterCut cp sigB ∧
-      Match tmpl max prog (lv.dropWhile (fun e => e.1 ≠ cp)) ans0 m m' sigB r' := by
+      Match mo tmpl max prog (lv.dropWhile (fun e => e.1 ≠ cp)) ans0 m m' sigB r' := by
   have hmem : (lv.map Prod.fst).contains cp = true := by
     simpa using mem_ids_of_lev hlcp
   rw [cut' (t := .afterCut pc vars kk [] [] env cp) (ts := []) rfl (by simp [cutPromise]) rfl hmem] at hd
@@ -77,14 +77,14 @@ theorem cut_core {k : Nat} (ihPall : ∀ j, j ≤ k → TPk fl tmpl max prog F j
   -- the path below the cut
   let lv' : Lv := lv.dropWhile (fun e => e.1 ≠ cp)
   have hsub : lv'.Sublist lv := List.dropWhile_sublist _
-  have hok' : LvOK lv' d := hok.drop cp
+  have hok' : LvOK mo lv' d := hok.drop cp
   have hlive' : lv'.map Prod.fst = (lv.map Prod.fst).dropWhile (· ≠ cp) := map_fst_dropWhile cp lv
   rw [← hlive'] at hda
   have hin : ∀ it ∈ G', isCut it → ∀ l', lv.lev it.2 = some l' → lv'.lev it.2 = some l' := by
     intro it hit hc l' hl'
     have := mem_drop_of_le hok hlcp hl' (hbnd it hit hc l' hl')
     exact Lv.lev_of_mem hok'.nodup this
-  have hgr' : GRel lv' σ π D G' R := by
+  have hgr' : GRel mo lv' σ π D G' R := by
     refine hgr.imp ?_
     rintro it hit fr ⟨hg, l0, hfr, hl0⟩
     exact ⟨hg, l0, hfr, fun hc => hin it hit hc l0 (hl0 hc)⟩
@@ -98,7 +98,7 @@ theorem cut_core {k : Nat} (ihPall : ∀ j, j ≤ k → TPk fl tmpl max prog F j
   cases k with
   | zero => simp [dfsAlts] at hda
   | succ k0 =>
-  have ihP0 : TPk fl tmpl max prog F k0 := ihPall k0 (Nat.le_succ k0)
+  have ihP0 : TPk fl mo tmpl max prog F k0 := ihPall k0 (Nat.le_succ k0)
   cases hev : evalThunk F (Thunk.afterCut pc vars kk [] [] env cp) (tick m) with
   | none => rw [dfsAlts_thunk_none (sem := VM.sem F) (by exact hev)] at hda; cases hda
   | some pr =>
@@ -117,7 +117,7 @@ theorem cut_core {k : Nat} (ihPall : ∀ j, j ≤ k → TPk fl tmpl max prog F j
       rw [← hf, hlive'] at hx
       exact hgood x mx (.cut (ts := []) rfl (by simp [cutPromise]) rfl hmem hx)
     obtain ⟨hspec, hst1, hnv1⟩ := cont_run tmpl max prog hprog F _ env (tick m) q0 m1 hcont
-      (fun hfl => hgA _ _ .here hfl _ hev) lv' R q nv
+      (fun hfl => (hgA _ _ .here).fine hfl _ hev) lv' R q nv
       ⟨N, σ, π, D, G', hN, hW, hcg, hgr', hco', hq, trivial⟩ (stOK_tick hst) n d r' hs
     have hlv1 : lv'.map Prod.fst = push ({} : Pr).id (lv'.map Prod.fst) := by simp [push]
     rcases after_child ihP0 hda hgA (by exact hev) hlv1 hspec hok' hst1 hlt rfl with
@@ -161,9 +161,9 @@ theorem cut_core {k : Nat} (ihPall : ∀ j, j ≤ k → TPk fl tmpl max prog F j
 
 /-- the signal and the reference's result after the cut -/
 theorem match_afterCut {lv : Lv} {d cp l : Nat} {ans0 : List Term} {m m' : MS} {sigB : SigG Err} {r' : SLD.Res}
-    (hok : LvOK lv d) (hlcp : lv.lev cp = some l)
-    (hm : Match tmpl max prog (lv.dropWhile (fun e => e.1 ≠ cp)) ans0 m m' sigB r') :
-    Match tmpl max prog lv ans0 m m' (afterCut cp sigB) (SLD.afterCut l r') := by
+    (hok : LvOK mo lv d) (hlcp : lv.lev cp = some l)
+    (hm : Match mo tmpl max prog (lv.dropWhile (fun e => e.1 ≠ cp)) ans0 m m' sigB r') :
+    Match mo tmpl max prog lv ans0 m m' (afterCut cp sigB) (SLD.afterCut l r') := by
   have hsub : (lv.dropWhile (fun e => e.1 ≠ cp)).Sublist lv := List.dropWhile_sublist _
   rcases hm.stop with ⟨h1, h2, h3⟩ | ⟨c', l', h1, h2, h3, h4⟩ | ⟨h1, h2⟩ | ⟨F', c1, c2, ex, co, h1, h2⟩
   · subst h1
@@ -177,7 +177,14 @@ theorem match_afterCut {lv : Lv} {d cp l : Nat} {ans0 : List Term} {m m' : MS} {
     simp [SLD.afterCut, h2, Nat.min_eq_left hle]
   · subst h1
     refine ⟨by rw [afterCut_answers]; exact hm.ans, Or.inr (Or.inr (Or.inl ⟨rfl, ?_⟩)), hm.st, hm.nvar⟩
-    simp [SLD.afterCut, h2]
+    cases mo with
+    | none =>
+      have h2' : r'.stop = .full := h2
+      simp [SLD.afterCut, h2', foundStop]
+    | some dN =>
+      have h2' : r'.stop = .cut dN := h2
+      have := hok.above dN rfl _ (Lv.mem_of_lev hlcp) l rfl
+      simp [SLD.afterCut, h2', foundStop, Nat.min_eq_left (Nat.le_of_lt this)]
   · subst h1
     refine ⟨by rw [afterCut_answers]; exact hm.ans,
       Or.inr (Or.inr (Or.inr ⟨F', c1, c2, ex, ?_⟩)), hm.st, hm.nvar⟩
